@@ -1,8 +1,9 @@
 (* C20 — STRL compilation (C++ back-end): every solution of the generated model is a valid
    space-time allocation.  Only statements; proofs are in Proofs/StrlP*.v.
    PARTIAL: see the header of Model/Strl.v for what is not modelled (WindowedChoose, MalleableChoose,
-   optimisation passes, DAG sharing); of the optimality half of the property only `C20_coarse` is proved;
-   `max utility = brute-force optimum, with or without the pruning passes` is NOT proved. *)
+   optimisation passes, DAG sharing).  Optimality (max utility = brute-force optimum, with or without the
+   pruning passes) is NOT proved: it is checked on generated trees by the harness (stage S-strl-passes),
+   as is the lowering with optimisation passes and WindowedChoose; of that half only `C20_coarse` is a theorem. *)
 From Coq Require Import ZArith Bool List.
 Import ListNotations.
 From Verif Require Import Model.Val Model.Strl Proofs.StrlP Proofs.StrlP2 Proofs.StrlP3 Proofs.StrlP4 Proofs.StrlP5 Proofs.StrlP6 Proofs.StrlP7 Proofs.StrlP8.
